@@ -283,6 +283,19 @@ class ReaderPB:
                         if isinstance(p, ast.Subscript) and isinstance(p.value, ast.Name):
                             pyenum = p.value.id
                         p = mod.parent.get(p)
+                    # the field is the iterable of a comprehension: the transport is applied to the comprehension variable
+                    pc_ = mod.parent.get(x)
+                    while pc_ is not None and pc_ is not n and not isinstance(pc_, (ast.SetComp, ast.ListComp, ast.GeneratorExp, ast.DictComp)):
+                        pc_ = mod.parent.get(pc_)
+                    if isinstance(pc_, (ast.SetComp, ast.ListComp, ast.GeneratorExp)):
+                        tv = [g.target.id for g in pc_.generators if isinstance(g.target, ast.Name) and any(y is x for y in ast.walk(g.iter))]
+                        for u in ast.walk(pc_.elt):
+                            if tv and isinstance(u, ast.Call) and isinstance(u.func, ast.Attribute) and u.func.attr == "Name" and any(isinstance(y, ast.Name) and y.id in tv for y in ast.walk(u)):
+                                enum = norm(u.func.value)
+                            if tv and isinstance(u, ast.Subscript) and isinstance(u.value, ast.Name) and any(isinstance(y, ast.Name) and y.id in tv for y in ast.walk(u.slice)):
+                                c_ = self.repo.resolve_class(mod, u.value.id)
+                                if c_ is not None and c_.is_enum:
+                                    pyenum = u.value.id
                     if isinstance(n, ast.Assign):
                         t = n.targets[0]
                         if isinstance(t, ast.Attribute) and isinstance(t.value, ast.Name):
